@@ -73,6 +73,10 @@ def check(ctx):
             return "an exception raised while waiting for readiness is swallowed by start()"
         if canc and waited:
             return None
+        if canc:
+            # TaskHandle.cancel() turns PENDING into CANCELLING: a status test made after it cannot tell a finished child from a running one
+            return ("start() cancels the child and then leaves without waiting for it (a status test made after handle.cancel() never "
+                    "reads PENDING, so it cannot stand for 'the child has finished')")
         if (pend[0], False) in facts:
             return None
         return ("start() re-raises while the child may still be running: a pending child must be cancelled and awaited (under a shield) "
